@@ -101,6 +101,7 @@ def shard_rnd(seed, shard, salt=0):
 
 
 def wl_c01(tier, seed, shard, nshards):
+    yield from take(G.twin_programs(), shard, nshards)
     rnd = random.Random(seed)
     strings = G.hostile_strings(tier, rnd)
     for i, s in enumerate(strings):
@@ -158,19 +159,21 @@ def many_groups_programs():
 
 
 def wl_c02(tier, seed, shard, nshards):
+    yield from take(({k: v for k, v in it.items() if k not in ('hole', 'pos')} for it in G.twin_programs()), shard, nshards)
     yield from take(backref_programs(), shard, nshards)
     yield from take(many_groups_programs(), shard, nshards)
     yield from take(G.w3_depth1(), shard, nshards)
     r = shard_rnd(seed, shard, 1)
     if tier == 'quick':
-        yield from G.w3_depth2(r, sample=20000 // nshards)
-        yield from G.w4_random(r, 6000 // nshards)
+        yield from G.w3_depth2(r, sample=14000 // nshards)
+        yield from G.w4_random(r, 5000 // nshards)
     else:
         yield from take(G.w3_depth2(), shard, nshards)
         yield from G.w4_random(r, 100000 // nshards, depth=(4, 5, 6, 8), maxnodes=120)
 
 
 def wl_c03(tier, seed, shard, nshards):
+    yield from take(qseq_programs(), shard, nshards)
     yield from take(backref_programs(), shard, nshards)
     yield from take(many_groups_programs(), shard, nshards)
     yield from take(G.w_invalid(), shard, nshards)
@@ -178,13 +181,32 @@ def wl_c03(tier, seed, shard, nshards):
     yield from take(G.w3_depth1(), shard, nshards)
     r = shard_rnd(seed, shard, 2)
     k = 1 if tier == 'quick' else 10
-    yield from G.w3_depth2(r, sample=12000 * k // nshards)
-    yield from G.w4_random(r, 5000 * k // nshards, depth=(3, 4, 5) if tier == 'quick' else (4, 5, 6, 8),
+    yield from G.w3_depth2(r, sample=6000 * k // nshards)
+    yield from G.w4_random(r, 3000 * k // nshards, depth=(3, 4, 5) if tier == 'quick' else (4, 5, 6, 8),
                            maxnodes=40 if tier == 'quick' else 120)
     yield from take(G.w5_lattice('quick'), shard, nshards * (4 if tier == 'quick' else 1))
 
 
+def qseq_programs():
+    """one operand object, several quantifier calls in a row: a valid bound and then an invalid value that compares equal to it"""
+    import fractions
+    O = G.OPN
+    ops = [G.PL('ab'), G.PL('a'), G.CLS('AnyDigit'), O('alt', G.L('x'), G.L('yz')), O('cap', G.L('a')), O('mas', G.L('a')), G.E(0)]
+    seqs = [
+        [('ex', 2, 'o'), ('ex', 2.0, 'c'), ('ex', 2.0, 'm')], [('ex', 2, 'c'), ('ex', 2.0, 'c')], [('ex', 1, 'm'), ('ex', True, 'c'), ('ex', 1.0, 'm')],
+        [('ex', 0, 'c'), ('ex', False, 'c'), ('ex', 0.0, 'm')], [('q', 2, 2), ('ex', 2.0, 'c')], [('am', 0), ('ex', False, 'm')],
+        [('q', 1, 3), ('q', 1.0, 3), ('q', 1, 3.0), ('q', True, 3)], [('al', 2), ('al', 2.0), ('al', True)], [('am', 3), ('am', 3.0), ('am', True)],
+        [('ex', 3, 'r'), ('ex', 3, 'o'), ('ex', 3, 'm'), ('ex', 3, 'c')], [('q', 0, 1, False), ('q', 0, 1, True), ('q', 0, 1, False)],
+        [('al', 1, False), ('al', 1, True)], [('q', 2, None, False), ('q', 2, None, True), ('q', 2, None, False)],
+        [('ex', 2, 'm'), ('q', 2, 2), ('ex', 2, 'o')], [('am', None, False), ('am', None, True)],
+    ]
+    for x in ops:
+        for calls in seqs:
+            yield {'prog': {'o': 'qseq', 'x': [x], 'calls': [list(c) for c in calls]}, 'form': 'm', 'w': 'W5seq'}
+
+
 def wl_c04(tier, seed, shard, nshards):
+    yield from take(qseq_programs(), shard, nshards)
     yield from take(G.w5_lattice(tier), shard, nshards)
     r = shard_rnd(seed, shard, 3)
     n = 2000 if tier == 'quick' else 10000
@@ -320,6 +342,15 @@ def wl_c09(tier, seed, shard, nshards):
                 yield {'prog': q(G.L(s)), 'form': 'cm'[i % 2], 'w': 'W1q'}
             yield {'prog': G.OPN('ex', G.L(s), n=2), 'form': 'o', 'w': 'W1q'}
             yield {'prog': G.OPN('ex', G.L(s), n=1, rmul=True), 'form': 'o', 'w': 'W1q'}
+        anchors = [lambda x: G.OPN('mas', x), lambda x: G.OPN('mae', x), lambda x: G.OPN('mals', x), lambda x: G.OPN('male', x),
+                   lambda x: G.OPN('fol', x, G.L('z')), lambda x: G.OPN('pre', x, G.L('z')), lambda x: G.OPN('lenc', x, G.L('z')),
+                   lambda x: G.OPN('fol', G.L('z'), x), lambda x: G.OPN('nfol', x, G.L('z')), lambda x: G.OPN('npre', G.L('z'), G.L('k'))]
+        for j, s_ in enumerate(strings):
+            for k, an in enumerate(anchors):
+                q = quants[(j + k) % 8]
+                yield {'prog': q(an(G.L(s_))), 'form': 'cm'[(j + k) % 2], 'w': 'W1aq'}
+            yield {'prog': G.OPN('star', G.OPN('male', G.OPN('alt', G.L('a'), G.L(s_)))), 'form': 'c', 'w': 'W1aq'}
+            yield {'prog': G.OPN('plus', G.OPN('mas', G.OPN('cat', G.L(s_), G.L('b')))), 'form': 'm', 'w': 'W1aq'}
         for x in G.quant_operands() + G.leaf_basis():
             for q in quants:
                 for f in 'cm':
@@ -360,10 +391,15 @@ def lookbehind_operands():
             G.E(0), G.E(4), G.RAW('a|b'), G.RAW('a+'), {'o': 'bref', 'r': 1},
             O('cat', O('cap', Lx('a'), name='w2'), {'o': 'bref', 'r': 'w2'}),
             O('ex', O('cat', Lx('a'), O('opt', Lx('b'))), n=2), O('cat', O('ex', G.CLS('AnyLetter'), n=3), G.FROM('+')),
+            G.PL('-'), G.PL('minus'), G.PL('ab'), G.PL('c'), G.CLS('AnyLetter'),
+            O('alt', G.PL('-'), G.PL('minus'), f='m'), O('alt', G.PL('ab'), G.PL('c'), f='m'), O('alt', G.PL('ab'), G.PL('c'), f='m', left=True),
+            O('alt', G.CLS('AnyLetter'), G.PL('ab'), f='m'), O('cat', O('alt', G.PL('-'), G.PL('minus'), f='m'), G.PL('c'), f='m'),
+            O('alt', G.PL('ab'), G.PL('-'), G.PL('minus'), f='m'), O('alt', G.PL('-'), G.PL('c'), f='m'),
             ]
 
 
 def wl_c10(tier, seed, shard, nshards):
+    yield from take(({k: v for k, v in it.items() if k not in ('hole', 'pos')} for it in G.twin_programs()), shard, nshards)
     ops = lookbehind_operands()
     matches = [G.L('x'), G.E(0), G.OPN('alt', G.L('x'), G.L('yz')), G.OPN('plus', G.L('x')), G.OPN('cap', G.L('x'))]
 
@@ -558,6 +594,11 @@ def run_shard(ctx):
     from .interp import Interp, show
     check, tier, seed, shard, nshards = ctx['check'], ctx['tier'], ctx['seed'], ctx['shard'], ctx['nshards']
     I = Interp(seed=seed * 7919 + shard, nprobes=10 if tier == 'quick' else 16)
+    PI = None
+    pool_every = {'C08': 1, 'C10': 1, 'C04': 2, 'C09': 2, 'C05': 2}.get(check, 4)
+    if check != 'C01':
+        from .hist import PoolInterp
+        PI = PoolInterp(seed=seed * 7919 + shard + 1, nprobes=10)
     wl = WORKLOADS[check](tier, seed, shard, nshards)
     t0 = time.time()
     budget = ctx.get('budget', 50 if tier == 'quick' else 420)
@@ -583,6 +624,15 @@ def run_shard(ctx):
             ev = I.events[-1]
             samples.append({'program': show(item['prog']), 'form': item.get('form'), 'workload': item.get('w'),
                             'emitted': ev.real, 'reference': ev.ref, 'verdict': ev.verdict})
+        if PI is not None and (ncases % pool_every == 0):
+            # the same program once more, built from a pool of shared sub-objects that earlier programs of this
+            # shard have already used (compiled, matched with, used as operands): reuse must not change anything
+            stp, evp, _ = PI.run_program(G.strip_forms(item['prog']) if item.get('spellings') else item['prog'], item.get('form', 'c'))
+            evaluations += len(evp)
+            for ev in evp:
+                if ev.verdict == 'viol':
+                    ev.flags.add('reused-objects')
+                    res.append((props_of(ev), ev, item.get('form', 'c'), item['prog']))
         attributed = False
         for P, ev, form, p in res:
             if check == 'C01':
@@ -729,10 +779,14 @@ WRAPPED_FOR = {'C02', 'C03', 'C04', 'C05', 'C08', 'C09', 'C10'}
 
 def plan(check, tier, seed, tp):
     nsh = tp['nshards']
-    jobs = [('shard%02d' % sh, {'shard': sh, 'nshards': nsh}, tp['hashseeds'][sh % len(tp['hashseeds'])]) for sh in range(nsh)]
+    jobs = []
     if check in WRAPPED_FOR:
+        if check in ('C02', 'C03') or tier == 'thorough':
+            # the repository's own tests under the monitors (~30 s, started first): every change in the two broadest
+            # checks, all seven in thorough
+            jobs.append(('w10', {'engine': 'w10', 'shard': 0, 'nshards': 1}, 0))
         jobs.append(('w9', {'engine': 'w9', 'shard': 0, 'nshards': 1}, 0))
-        jobs.append(('w10', {'engine': 'w10', 'shard': 0, 'nshards': 1}, 0))
+    jobs += [('shard%02d' % sh, {'shard': sh, 'nshards': nsh}, tp['hashseeds'][sh % len(tp['hashseeds'])]) for sh in range(nsh)]
     if check == 'C03':
         # "class algebra, meta patterns ... for every interpreter hash seed": the class and meta engines
         # run their workloads under the C03 oracle (crash / uncompilable / export)
